@@ -19,7 +19,8 @@
                      `eliminate_zeros`) and `table._data = arr`;
       `setIds`     = a new ID array is installed (`_filter`: `np.asarray(list(compress(..)))`,
                      `update_ids`: `zeros(..)`); no API operation writes an ID array in place;
-      `keepMd`     = `tuple(compress(metadata, bools))`: the same dict objects, fewer of them;
+      `keepMd`     = `tuple(compress(metadata, bools))`: the same dict objects, fewer of them
+                     (`None` when the kept ones are all empty);
       `addMd`      = `add_metadata`: `dict.update` in place, or a new tuple; then `_cast_metadata`
                      re-wraps both axes;
       `delMd`      = `del_metadata`: `del md[k]` in place, `None` when nothing is left.
@@ -191,22 +192,29 @@ def setIds (h : Heap γ) (t : Nat) (ax : Axis) (l : List Id) : Heap γ :=
   | none => h
   | some o => { h with ids := h.ids ++ [l], objs := h.objs.set t (o.setIdsLoc ax h.ids.length) }
 
-/-- `tuple(compress(metadata, bools))` -/
+/-- `tuple(compress(metadata, bools))`, then `None` when nothing the kept dicts hold is left
+("for consistency with init on absence of metadata") -/
 def keepMd (h : Heap γ) (t : Nat) (ax : Axis) (mask : List Bool) : Heap γ :=
   match h.objs[t]? with
   | none => h
-  | some o => { h with objs := h.objs.set t (o.setMd ax ((o.md ax).map (fun ls => filterMask ls mask))) }
+  | some o =>
+    let kept : Option (List Nat) :=
+      match o.md ax with
+      | some ls => if (filterMask ls mask).all (fun l => (h.dict l).isEmpty) then none else some (filterMask ls mask)
+      | none => none
+    { h with objs := h.objs.set t (o.setMd ax kept) }
 
-/-- `_cast_metadata`: both axes are re-wrapped in fresh dicts with the same contents -/
+/-- `_cast_metadata`: on both axes, entries that are all empty become `None`; otherwise every entry
+is re-wrapped in a fresh dict with the same content -/
 def recast (h : Heap γ) (t : Nat) : Heap γ :=
   match h.objs[t]? with
   | none => h
   | some o =>
-    let oc := (o.omd.getD []).map h.dict
-    let sc := (o.smd.getD []).map h.dict
-    { h with dicts := h.dicts ++ oc ++ sc,
-             objs := h.objs.set t { o with omd := o.omd.map (fun l => List.range' h.dicts.length l.length),
-                                           smd := o.smd.map (fun l => List.range' (h.dicts.length + oc.length) l.length) } }
+    let oc := normMd (h.readMd o.omd)
+    let sc := normMd (h.readMd o.smd)
+    { h with dicts := h.dicts ++ oc.getD [] ++ sc.getD [],
+             objs := h.objs.set t { o with omd := oc.map (fun l => List.range' h.dicts.length l.length),
+                                           smd := sc.map (fun l => List.range' (h.dicts.length + (oc.getD []).length) l.length) } }
 
 /-- a run of in-place dict writes (`d.update(..)`, `del d[k]`) -/
 def writeDicts (h : Heap γ) : List (Nat × Option (Md → Md)) → Heap γ
@@ -323,6 +331,9 @@ def Body.micro (t : Nat) : Body γ → List (Micro γ)
 
 def bodiesMicro (t : Nat) (bs : List (Body γ)) : List (Micro γ) := bs.flatMap (Body.micro t)
 
+/-- the constructor's / `_cast_metadata`'s normalisation, on both axes -/
+def Content.norm (c : Content γ) : Content γ := { c with omd := normMd c.omd, smd := normMd c.smd }
+
 /-- what a body does to the content of its target — a function of the content alone -/
 def zipUpd : List Md → List (Option (Md → Md)) → List Md
   | m :: ms, some f :: us => f m :: zipUpd ms us
@@ -335,11 +346,11 @@ def Micro.absStep : Micro γ → Content γ → Content γ
   | .construct .., c => c
   | .matKernel _ _ g, c => { c with mat := g c.mat }
   | .setIds _ ax l, c => c.setIds ax l
-  | .keepMd _ ax mask, c => c.setMd ax ((c.md ax).map (fun ms => filterMask ms mask))
+  | .keepMd _ ax mask, c => c.setMd ax (normMd ((c.md ax).map (fun ms => filterMask ms mask)))
   | .addMd _ ax ups, c =>
-    match c.md ax with
-    | some ms => c.setMd ax (some (zipUpd ms ups))
-    | none => if ups.all (·.isNone) then c else c.setMd ax (some (newEntries ups))
+    (match c.md ax with
+     | some ms => c.setMd ax (some (zipUpd ms ups))
+     | none => if ups.all (·.isNone) then c else c.setMd ax (some (newEntries ups))).norm
   | .delMd _ ax d, c =>
     match d with
     | none => c.setMd ax none
@@ -486,18 +497,16 @@ def runObs (h : Heap γ) : List (Op γ × List (Body γ)) → List (CallObs γ)
   | [] => []
   | (op, poke) :: rest => (obsOp h op poke).1 :: runObs (obsOp h op poke).2 rest
 
-/-- the guard of the in-place equivalence: `copy()` goes through the constructor, which turns a
-metadata tuple whose entries are all empty into `None`; the in-place variant keeps the tuple. -/
+/-- no axis carries a metadata tuple without information (the constructor, `_cast_metadata`,
+`filter` and `del_metadata` all turn such a tuple into `None`) -/
 def Content.mdNormal (c : Content γ) : Bool := normMd c.omd == c.omd && normMd c.smd == c.smd
 
-/-- what `copy()` makes of a content: the constructor's metadata normalisation -/
-def Content.norm (c : Content γ) : Content γ := { c with omd := normMd c.omd, smd := normMd c.smd }
-
+/-- well-formedness of a call: an in-place call names a live table -/
 def okCall (h : Heap γ) : Op γ → Bool
-  | .inplace r _ => match h.abs r with | some c => c.mdNormal | none => false
+  | .inplace r _ => decide (r < h.objs.length)
   | _ => true
 
-/-- the guard holds at every in-place call of a history -/
+/-- every in-place call of a history names a table that is live at that time -/
 def okRun (h : Heap γ) : List (Op γ × List (Body γ)) → Bool
   | [] => true
   | (op, poke) :: rest => okCall h op && okRun (obsOp h op poke).2 rest
@@ -789,7 +798,7 @@ def stepCall (calls : Array CallJ) (st : RunState) (c : CallJ) : R RunState := d
   let v := (holdsV obs).map (fun cl => s!"{st.k}:{c.name}:{cl}")
   let d ← compareFacts st.h h1 ext1 c
   let d := d.map (fun x => s!"{st.k}:{c.name}: {x}")
-  -- the model's own observation of the same call satisfies the predicate (cf. model_holds_partial)
+  -- the model's own observation of the same call satisfies the predicate (cf. model_holds)
   let mh := (ops.foldl (fun (acc : Bool × Heap G) op =>
     (acc.1 && (holds (obsOp acc.2 op []).1 || !(okCall acc.2 op)), stepOp acc.2 op)) (true, st.h)).1
   pure { h := h1, ext := ext1, prevAfter := c.after, prevExt := extAll c, k := st.k + 1,
